@@ -30,21 +30,21 @@ type Balance struct {
 }
 
 type Accrual struct {
-	Interval string  `json:"iv"`
-	Start    Day `json:"s"`
-	End      Day `json:"e"`
-	Account  string  `json:"a"`
+	Interval string `json:"iv"`
+	Start    Day    `json:"s"`
+	End      Day    `json:"e"`
+	Account  string `json:"a"`
 }
 
 // Directive is the harness's own model of a journal directive. Amounts are
 // decimal strings exactly as written in the file.
 type Directive struct {
 	Kind     string    `json:"k"`
-	Date     Day   `json:"d"`
-	Account  string    `json:"a,omitempty"`  // open / close
-	Com      string    `json:"c,omitempty"`  // price: commodity
-	Target   string    `json:"t,omitempty"`  // price: target commodity
-	Price    string    `json:"p,omitempty"`  // price
+	Date     Day       `json:"d"`
+	Account  string    `json:"a,omitempty"` // open / close
+	Com      string    `json:"c,omitempty"` // price: commodity
+	Target   string    `json:"t,omitempty"` // price: target commodity
+	Price    string    `json:"p,omitempty"` // price
 	Desc     string    `json:"desc,omitempty"`
 	Bookings []Booking `json:"b,omitempty"`
 	Accrual  *Accrual  `json:"acc,omitempty"`
